@@ -1,6 +1,6 @@
 (* C04 — Rotate is a pure change of origin on circular sequences. *)
 From Coq Require Import Permutation.
-From GTS Require Import Base Arith Loc Seq BaseLemmas LocProofs EditProofs SeqProofs RotateProofs.
+From GTS Require Import Base Arith Loc Seq BaseLemmas LocProofs EditProofs SeqProofs RotateProofs JoinDen JoinLift RotateJoin.
 Open Scope Z_scope.
 
 (* residues: the rotated sequence is p[m:] ++ p[:m] with m = L - n mod L, for
@@ -82,6 +82,36 @@ Example C04_hypotheses_met :
   rot_loc 3 10 (floc f1) = Ok (Complemented (Joined [Ranged 9 10 true false; Ranged 0 2 false false])) /\
   rot_loc 3 10 (floc f2) = Ok (Ordered [Point 4; Ambiguous 5 7]).
 Proof. vm_compute. repeat split; reflexivity. Qed.
+
+(* join(...) in the input.  Expand(0,n) and Normalize(L) each re-join the parts
+   of a join, and Join reduces what it is given, so for joins the statement is
+   "the same residues in the same order and strand, up to adjacent duplicates"
+   (deq; C06 sanctions exactly that reduction) and it holds whenever the images
+   of the leaves are free of the K1 shapes after each of the two steps --
+   rot_okb, a computable condition; for K1 shapes the statement is false
+   (known finding K1) and the correspondence decides.  Same conclusion for a
+   whole record whose features are join-free (rot_ok) or satisfy rot_okb. *)
+Theorem C04_location_joins_partial : forall n L, 0 <= n < L -> forall l, rot_okb n L l = true ->
+  exists l', rot_loc n L l = Ok l' /\ deq (den l') (map (onpos (fun x => (x + n) mod L)) (den l)).
+Proof. exact rotate_den_all. Qed.
+Print Assumptions C04_location_joins_partial.
+
+Theorem C04_features_joins_partial : forall s n, let L := zlen (residues s) in 0 < L ->
+  Forall (rot_ok2 n L) (feats s) ->
+  exists gg ls,
+    seq_rotate s n = Ok (mkseq gg (skipn (Z.to_nat (L - n mod L)) (residues s) ++ firstn (Z.to_nat (L - n mod L)) (residues s))) /\
+    Forall2 (fun f l => deq (den l) (map (onpos (fun x => (x + n) mod L)) (den (floc f)))) (feats s) ls /\
+    Permutation gg (relocate (feats s) ls).
+Proof. exact seq_rotate_features_joins. Qed.
+Print Assumptions C04_features_joins_partial.
+
+(* a spliced reverse-strand CDS whose middle exon lands across the new origin:
+   the side conditions hold and the exon is written as two parts *)
+Example C04_joins_hypotheses_met :
+  let l := Complemented (Joined [Ranged 1 3 true false; Ranged 5 8 false false; Ranged 9 10 false true]) in
+  rot_okb 4 10 l = true /\
+  rot_loc 4 10 l = Ok (Complemented (Joined [Ranged 5 7 true false; Ranged 9 10 false false; Ranged 0 2 false false; Ranged 3 4 false true])).
+Proof. vm_compute. split; reflexivity. Qed.
 
 Example C04_example : rotate_bytes [97; 98; 99; 100; 101] (- 7) = Ok [99; 100; 101; 97; 98].
 Proof. vm_compute. reflexivity. Qed.
